@@ -210,10 +210,17 @@ Inv_DescrReport ==
 (* Signatures                                                               *)
 (* parameter reference: [k |-> "sc", n |-> name] | [k |-> "agg", i |-> index into the input] | [k |-> "arr", n |-> name] *)
 PClass(p) == CASE p.k = "agg" -> <<":", p.i>>
+               [] p.k = "valist" -> <<"valist">>                 \* target dependent, see VaListClass
                [] p.k = "arr" -> <<"l">>                         \* 6.7.6.3p7: adjusted to pointer
                [] p.k = "sc"  -> <<IF SClass(p.n) = "flt" THEN (IF SSize(p.n) = 4 THEN "s" ELSE "d")
                                    ELSE IF SSize(p.n) = 8 THEN "l" ELSE "w">>
 VClass(p) == IF p.k = "sc" /\ p.n = "float" THEN <<"d">> ELSE PClass(p)      \* default argument promotions (6.5.2.2p6)
+
+(* targ.c: va_list is struct[1] (adjusted to a pointer) on x86_64-sysv, a 32-byte struct passed by value on  *)
+(* aarch64 (described to QBE as the opaque `align 8 { 32 }`), void * on riscv64                              *)
+VaListClass == [x \in {"x86_64-sysv", "riscv64"} |-> <<"l">>] @@ [x \in {"aarch64"} |-> <<":", "va_list">>]
+VaListAArch64 == SU(FALSE, FALSE, <<MEM(SC("ptr"), TRUE, -1, 0), MEM(SC("ptr"), TRUE, -1, 0), MEM(SC("ptr"), TRUE, -1, 0),
+                                    MEM(SC("int"), TRUE, -1, 0), MEM(SC("int"), TRUE, -1, 0)>>)
 
 AInput == IF Mode \in {"judge", "sig"} THEN ndJsonDeserialize(IOEnv.ABI_IN) ELSE <<>>
 
@@ -240,7 +247,7 @@ SigPick ==
   /\ \E c \in {"sc", "agg", "arr"} : (c = "agg" => st.nagg > 0) /\ pick' = c
   /\ UNCHANGED <<st, ms, outs, pool, phase, want>>
 
-SigRefs(c) == CASE c = "sc" -> {[k |-> "sc", n |-> x] : x \in SigScalars}
+SigRefs(c) == CASE c = "sc" -> {[k |-> "sc", n |-> x] : x \in SigScalars} \cup {[k |-> "valist"]}
                 [] c = "agg" -> {[k |-> "agg", i |-> x] : x \in 1..st.nagg}
                 [] c = "arr" -> {[k |-> "arr", n |-> x] : x \in {"char", "int", "double"}}
 
@@ -256,6 +263,7 @@ SigCase == [k |-> "sig", ret |-> st.ret, va |-> st.va, ps |-> ms, xs |-> outs,
             rcls |-> IF st.ret.k = "void" THEN <<>> ELSE PClass(st.ret),
             pcls |-> [i \in 1..Len(ms) |-> PClass(ms[i])],
             xcls |-> [i \in 1..Len(outs) |-> VClass(outs[i])],
+            valist |-> VaListClass, valist_t |-> VaListAArch64,
             marker |-> IF st.va THEN Len(ms) ELSE -1,           \* index of the `...` marker in a call (number of named arguments)
             \* with no variable arguments the marker changes the machine-level protocol only where the caller must
             \* announce the number of vector registers used (SysV: %al); elsewhere its absence is ABI-equivalent
